@@ -201,6 +201,40 @@ def run(model, rep, tier):
         for c in ast.walk(f.node):
             if isinstance(c, ast.Call) and dotted(c.func) == "sorted":
                 rep.bad("R-20.3", f.qualname, where(f, c), "sorted() in the B-tree version: order must come from the tree", stmt="sorted")
+    # the index and the map start from the same base: both copy-on-write from the previous version, or (replacement) both empty
+    wi = wv.methods["__init__"]
+    cfg = CFG(wi.node, implicit_exc=False)
+
+    def conds(n):
+        out = []
+        for t_ in cfg.nodes:
+            if t_.kind == "test" and isinstance(t_.ast, ast.If):
+                for k in ("t", "f"):
+                    if cfg.edge_dominated(n.id, {(t_.id, k)}):
+                        out.append((k, " ".join(src(t_.ast.test).split())))
+        return sorted(out)
+    cow = {}
+    fresh_idx = []
+    for n in cfg.stmts():
+        a = n.ast
+        if isinstance(a, (ast.Assign, ast.AnnAssign)) and isinstance(a.value, ast.Call):
+            tgt = src(a.targets[0]) if isinstance(a, ast.Assign) else src(a.target)
+            orig = [src(k.value) for k in a.value.keywords if k.arg == "original"]
+            if tgt in ("self.nodes", "self.delegations"):
+                if orig:
+                    cow.setdefault(tgt, []).append((n, orig[0]))
+                elif tgt == "self.delegations":
+                    fresh_idx.append(n)
+    if len(cow.get("self.nodes", [])) != 1 or len(cow.get("self.delegations", [])) != 1:
+        rep.blind("R-20.2", wi.qualname, where(wi, wi.node), f"copy-on-write initialisation of nodes/delegations not recognised: { {k: len(v) for k, v in cow.items()} }", stmt="same-base")
+    else:
+        (nn, no), (dn, do) = cow["self.nodes"][0], cow["self.delegations"][0]
+        rep.check(conds(nn) == conds(dn) and no.endswith(".nodes") and do.endswith(".delegations") and no.rsplit(".", 1)[0] == do.rsplit(".", 1)[0], "R-20.2", wi.qualname, where(wi, dn.ast),
+                  f"map and delegation index are cloned from the same version under the same condition {conds(nn)}",
+                  f"the delegation index is cloned from `{do}` under {conds(dn)} but the node map from `{no}` under {conds(nn)}: a replacement transaction starts with an empty map and the old cuts, "
+                  "so names in the new content are flagged DELEGATION/GLUE by cuts that no longer exist", stmt="same-base")
+        rep.check(bool(fresh_idx) and all(conds(x) != conds(dn) for x in fresh_idx), "R-20.2", wi.qualname, where(wi, wi.node), "a replacement writer starts with an empty delegation index",
+                  "no arm gives a replacement writer an empty delegation index", stmt="fresh-index")
     rep.meta["explanation"] = (
         "Exhaustiveness of flag re-derivation over the NodeFlags enum at every site that replaces a node, block-level pairing of flag/index/"
         "subtree updates, and shape rules for the helper predicates. bounds() results and nested-cut semantics are NOT decided (the nested-cut "
@@ -218,6 +252,9 @@ def _blocks(fn):
 
 
 WITNESSES = [
+    {"id": "c20-replacement-keeps-old-index", "rule": "R-20.2", "file": "dns/btreezone.py", "expect": "fires",
+     "old": "            self.delegations = Delegations(original=version.delegations)  # type: ignore\n        else:\n            self.delegations = Delegations()\n",
+     "new": "        else:\n            version = zone._versions[-1]\n        self.delegations = Delegations(original=version.delegations)  # type: ignore\n"},
     {"id": "c20-delegation-not-rederived", "rule": "R-20.1", "file": "dns/btreezone.py", "expect": "fires",
      "old": "        elif name in self.delegations:\n            node.flags |= NodeFlags.DELEGATION\n", "new": ""},
     {"id": "c20-glue-not-rederived", "rule": "R-20.1", "file": "dns/btreezone.py", "expect": "fires",
